@@ -172,7 +172,7 @@ def programs(tier="quick", seed=0):
                 # the other two traversal orders of the same computation: a seed-chosen slice
                 if M >= 2:
                     h = int(hashlib.md5(k.encode()).hexdigest()[:8], 16)
-                    nsl = 10 if tier == "quick" else 3
+                    nsl = 10 if tier == "quick" else (5 if M <= 3 and not (R == 3 and M == 3) else 40)
                     if h % nsl == seed % nsl:
                         for mode in ("rev", "rf"):
                             res.append((f"R{R}M{M}~{mode}", build_program(R, ops, {r: outs[r] for r in range(R)}, mode=mode)))
